@@ -207,6 +207,8 @@ class C18(Prop):
                      "sqlen=" + ",".join(str(rng.randrange(1, 100000)) for _ in range(n))]
             for k in ("acc", "desc", "ss", "sa", "pp", "gs", "gr"):
                 parts.append(k + "=" + (",".join(tok(i, k) for i in range(n)) if rng.random() < 0.5 else "none"))
+            if rng.random() < 0.5:
+                parts.append("gs2=" + ",".join(tok(i, "g2") if rng.random() < 0.6 else "~" for i in range(n)))
             return " ".join(parts)
         # qrna
         L = rng.choice([0, 1, 2, 3, rng.randrange(0, 30), rng.randrange(0, 300)])
@@ -229,6 +231,7 @@ class C18(Prop):
         elif w in ("ckmers", "xkmers"): n = len(unhx(a["s"])) // int(a["k"])
         elif w in ("msashuffle", "bootstrap"): n = len(unhx(a["rows"].split(",")[0]))
         elif w == "permute": n = len(a["rows"].split(","))
+        elif w.endswith("shuffle") and "v" in a: n = 0 if a["v"] == "-" else len(a["v"].split(","))
         elif w in ("xiid", "xfiid") and a.get("p") == "none": n = int(a["K"])
         vals = [0, 1, 0xffffffff, 0xfffffffe, 0x80000000, 0x7fffffff]
         if n and n >= 2:
@@ -283,7 +286,8 @@ class C18(Prop):
                     elif r < 0.73: o = self.iid_op(rng)
                     elif r < 0.77:
                         v = [rng.randrange(-50, 50) for _ in range(rng.choice([0, 1, 2, 3, rng.randrange(0, 40)]))]
-                        o = "%s v=%s ip=%d" % (rng.choice(["ishuffle", "ireverse"]), ",".join(map(str, v)) if v else "-", rng.randrange(2))
+                        o = "%s v=%s ip=%d" % (rng.choice(["ishuffle", "ireverse", "dshuffle", "fshuffle", "lshuffle", "dreverse", "freverse", "lreverse", "vcreverse"]),
+                                               ",".join(map(str, v)) if v else "-", rng.randrange(2))
                     else: o = self.msa_op(rng)
                     if rng.random() < 0.12: ops.append(self.poke_for(rng, o))
                     ops.append(o)
@@ -401,10 +405,10 @@ class C18(Prop):
                 abc = unhx(a["abc"]); allowed = {abc[i] for i, x in enumerate(p) if x != 0.0}
             bad = [c for c in o if c not in allowed]
             return "emitted symbol %r of zero probability" % bad[0] if bad else None
-        if w in ("ishuffle", "ireverse"):
+        if w in ("ishuffle", "ireverse", "dshuffle", "fshuffle", "lshuffle", "dreverse", "freverse", "lreverse", "vcreverse"):
             v = [] if a["v"] == "-" else [int(x) for x in a["v"].split(",")]
             o = [] if l[3:] == "-" else [int(x) for x in l[3:].split(",")]
-            if w == "ishuffle": return None if sorted(v) == sorted(o) else "not a permutation"
+            if w.endswith("shuffle"): return None if sorted(v) == sorted(o) else "not a permutation"
             return None if o == v[::-1] else "not the mirror image"
         if w in ("msashuffle", "bootstrap", "vshuffle"):
             if not l.startswith("ok "): return "returned %s" % l
@@ -434,6 +438,10 @@ class C18(Prop):
             if idxs != "index=ok": return "name index does not map each name to its new row"
             keys = ["rows", "names", "wgt", "sqlen", "acc", "desc", "ss", "sa", "pp", "gs", "gr"]
             arrs = [a[k].split(",") for k in keys if a.get(k, "none") != "none"]
+            n = len(a["rows"].split(","))
+            for k, b in (("ss", 1000), ("sa", 2000), ("pp", 3000)):
+                if a.get(k, "none") != "none": arrs.append([str(b + i) for i in range(n)])
+            if a.get("gs2", "none") != "none" and any(t != "~" for t in a["gs2"].split(",")): arrs.append(a["gs2"].split(","))
             recs = ["/".join(t) for t in zip(*arrs)]
             orecs = body.split(";")
             return None if Counter(recs) == Counter(orecs) else "rows were not kept together with their annotation"
